@@ -49,6 +49,9 @@ _seqmode = st.sampled_from(["next", "next", "skip", "skip", "equal", "lower", "z
 _op = st.one_of(
     st.tuples(st.just("gen"), st.integers(0, 2), _seqmode, st.integers(0, 2), st.integers(0, 65535), st.booleans()),
     st.tuples(st.just("replay"), st.integers(0, 40)),
+    # replay of an earlier frame with only UNPROTECTED control bits changed (repeat flag, priority, hop count):
+    # the MAC still verifies, so only the freshness rule keeps it out
+    st.tuples(st.just("replay_ctl"), st.integers(0, 40), st.sampled_from(["repeat", "prio", "hop", "repeat+hop"])),
     st.tuples(st.just("forged"), st.integers(0, 2), st.integers(1, 1000), st.integers(0, 1), st.integers(0, 65535), st.integers(0, 31)),
     st.tuples(st.just("wrongkey"), st.integers(0, 2), st.integers(1, 1000), st.integers(0, 1), st.integers(0, 65535)),
     st.tuples(st.just("unknown"), st.integers(1, 10**6), st.integers(0, 1), st.integers(0, 65535)),
@@ -75,7 +78,7 @@ def run_history(ctx, h) -> dict:
     from xknx.telegram.apci import GroupValueWrite
     from xknx.telegram.tpci import TDataGroup
 
-    flags = {"replay_after_macfail": False, "interleaved": False, "send_interleaved": False}
+    flags = {"replay_after_macfail": False, "interleaved": False, "send_interleaved": False, "replay_ctl": False}
 
     def body():
         init = h["init"]
@@ -105,12 +108,23 @@ def run_history(ctx, h) -> dict:
                     sent.append(seq_out)
                     flags["send_interleaved"] = True
                     continue
-                if kind == "replay":
+                if kind in ("replay", "replay_ctl"):
                     if not frames:
                         continue
                     fr = frames[op[1] % len(frames)]
                     if macfail_seen:
                         flags["replay_after_macfail"] = True
+                    if kind == "replay_ctl":
+                        raw = bytearray(fr["raw"])
+                        # cEMI: [0]=msg code [1]=addil (0) [2]=Ctrl1 [3]=Ctrl2
+                        if "repeat" in op[2]:
+                            raw[2] ^= 0x20  # repeat flag
+                        if op[2] == "prio":
+                            raw[2] ^= 0x04  # priority bit
+                        if "hop" in op[2]:
+                            raw[3] ^= 0x10  # hop count bit
+                        fr = {**fr, "raw": bytes(raw)}
+                        flags["replay_ctl"] = True
                 else:
                     if kind == "gen":
                         s = SENDERS[op[1] % n]
@@ -186,7 +200,7 @@ def run_history(ctx, h) -> dict:
 
 def _oracle(ctx, h) -> None:
     flags = run_history(ctx, h)
-    nt = flags["replay_after_macfail"] or flags["interleaved"] or flags["send_interleaved"]
+    nt = flags["replay_after_macfail"] or flags["interleaved"] or flags["send_interleaved"] or flags["replay_ctl"]
     cls = [k for k, v in flags.items() if v] or ["plain"]
     ctx.case(repr(h), nontrivial=nt, cls=cls, sample=h if nt and len(h["ops"]) <= 6 else None)
 
